@@ -153,16 +153,8 @@ Proof.
   intros [= <-]. eexists. split; [reflexivity|]. cbn. now apply get_ident_original in Ei.
 Qed.
 
-Definition leaf_kind_ok (x : item) (it : ritem) : Prop :=
-  match x, it with
-  | IStruct _ _ _ _, ItStruct _ | IStruct _ _ _ _, ItAlias _
-  | IEnum _ _ _ _, ItEnum _ | IEnum _ _ _ _, ItAlias _
-  | IType _ _ _ _, ItAlias _ | IConst _ _ _ _, ItConst _ => True
-  | _, _ => False
-  end.
-
 Lemma parse_leaf_kind x it : parse_leaf x = Ok it ->
-  leaf_kind_ok x it /\ original (item_id it) = replace_sub (lit "r#") [] (leaf_ident x).
+  c03_leaf_kind_ok x it /\ original (item_id it) = replace_sub (lit "r#") [] (leaf_ident x).
 Proof.
   destruct x as [a i g fs|a i g vs|a i g t|a i t e|u|inner]; cbn [FrontItems.parse_leaf leaf_ident]; try discriminate.
   - unfold parse_struct. destruct (get_serialized_as_type uc a).
@@ -240,7 +232,7 @@ Proof.
   destruct (parse_leaf x) as [it|e|s] eqn:El; [| |discriminate].
   - destruct (parse_leaf_kind x it El) as [Hk Hn]. rewrite (unraw_model _ Hid) in Hn.
     rewrite oks_cons_ok, errs_cons_ok, nm_structs_cons, nm_enums_cons, nm_aliases_cons, nm_consts_cons.
-    destruct x as [a i g fs|a i g vs|a i g t|a i t e|u|inner]; destruct it as [s|en|al|c]; cbn [leaf_kind_ok] in Hk; try contradiction;
+    destruct x as [a i g fs|a i g vs|a i g t|a i t e|u|inner]; destruct it as [s|en|al|c]; cbn [c03_leaf_kind_ok] in Hk; try contradiction;
       cbn [item_id leaf_ident] in Hn; cbn [app leaf_ident];
       rewrite Hn, pop_head, IH; cbn [orb]; rewrite ?orb_true_r; reflexivity.
   - rewrite oks_cons_err, errs_cons_err. cbn [List.length]. rewrite IH. reflexivity.
